@@ -423,19 +423,15 @@ func c11RunTrim(in c11In, res *Result) error {
 			d = append(d, r)
 		}
 	}
-	guard := len(d) == 0 || !c11TimeOf(d[0]).After(e)
-	res.InDomain = guard
-	res.Nontrivial = guard && len(t.Rows) >= 2
+	_ = d
+	res.InDomain = true
+	res.Nontrivial = len(t.Rows) >= 2
 	if res.Holds && string(c11EncRows(want)) != string(o.Out) {
 		res.Holds = false
 		res.Detail = fmt.Sprintf("trimResultsToRange returned %d rows, %d are in [start,end]", len(o.Out)/(t.Rowlen+8), len(want))
-		// the known finding excuses exactly one wrong answer: every row from the first one >= Start on
-		if !guard && string(o.Out) == string(c11EncRows(d)) {
-			res.Class = "no-candidate-le-end"
-		}
 	}
-	if !guard {
-		res.Tags = append(res.Tags, "F11")
+	if len(d) > 0 && c11TimeOf(d[0]).After(e) {
+		res.Tags = append(res.Tags, "end-before-first-candidate") // the former finding F11 (fixed): regression class
 	}
 	if e.Before(s) {
 		res.Tags = append(res.Tags, "inverted")
@@ -653,7 +649,7 @@ func c11RunQuery(in c11In, res *Result) error {
 			}
 		}
 	}
-	res.InDomain = q.Mode == 0 && wf && guard && c11Sane(s) && c11Sane(e) && o.Code == 0 && o.ACode == 0
+	res.InDomain = q.Mode == 0 && wf && c11Sane(s) && c11Sane(e) && o.Code == 0 && o.ACode == 0
 	res.Nontrivial = res.InDomain && len(o.All) > 0
 	switch {
 	case o.Code == 1 && o.ACode == 1:
@@ -668,24 +664,6 @@ func c11RunQuery(in c11In, res *Result) error {
 		res.Holds = false
 		res.Detail = fmt.Sprintf("range query returned %d rows; %d of the %d rows of the unrestricted query are in range",
 			len(o.Out)/rl, len(want)/rl, len(o.All)/rl)
-		if st.Var && !guard && q.Mode == 0 {
-			// the known finding excuses exactly one wrong answer: every candidate from the first one >= Start on
-			var quirk []byte
-			on := false
-			for _, rc := range cand {
-				if !on && !time.Unix(rc.Sec, int64(rc.Ns)).Before(s) {
-					on = true
-				}
-				if on {
-					quirk = binary.LittleEndian.AppendUint64(quirk, uint64(rc.Sec))
-					quirk = append(quirk, rc.Pay...)
-					quirk = binary.LittleEndian.AppendUint32(quirk, uint32(rc.Ns))
-				}
-			}
-			if string(quirk) == string(o.Out) {
-				res.Class = "no-candidate-le-end"
-			}
-		}
 	}
 	rt := "fixed"
 	if st.Var {
@@ -697,7 +675,7 @@ func c11RunQuery(in c11In, res *Result) error {
 		res.Tags = append(res.Tags, "inverted")
 	}
 	if !guard {
-		res.Tags = append(res.Tags, "F11")
+		res.Tags = append(res.Tags, "end-before-first-candidate")
 	}
 	if !wf {
 		res.Tags = append(res.Tags, "state-not-wf")
